@@ -51,6 +51,8 @@ TrStart == IsEvent("Start") /\ FreshNext(Ev.db)
 
 TrConnect == IsEvent("Connect") /\ Ev.c \in TConns /\ S!Connect(Ev.c)
 
+TrDisconnect == IsEvent("Disconnect") /\ Ev.c \in TConns /\ S!Disconnect(Ev.c)
+
 TrExpire == IsEvent("Expire") /\ S!Expire
 
 Arg  == [cred |-> Ev.cred, target |-> SeqRange(Ev.target)]
@@ -93,7 +95,7 @@ TrReqGarbled ==
        \/ Ev.cmd = "Kill" /\ authorized[Ev.c] /\ S!KillEffect(SeqRange(Ev.target))
     /\ Observed
 
-TraceNext == TrReset \/ TrStart \/ TrConnect \/ TrExpire \/ TrReq \/ TrReqGarbled
+TraceNext == TrReset \/ TrStart \/ TrConnect \/ TrDisconnect \/ TrExpire \/ TrReq \/ TrReqGarbled
 
 TraceSpec == TraceInit /\ [][TraceNext]_tvars
 
